@@ -13,7 +13,7 @@ import PsutilModel.Proofs.C03Deny
 namespace Psutil.C03
 open Spec
 
-variable (r : Bool)
+variable (r : Host)
 
 /-! ## children(recursive=True) -/
 
